@@ -51,8 +51,10 @@ public:
     return ok;
   }
   bool CANOpen() override { return true; }
+  int taken = 0;            // frames handed to the library since the counter was last cleared
   bool CANGetFrame(unsigned long &id, unsigned char &len, unsigned char *buf) override {
     if (rx.empty()) return false;
+    taken++;
     RxFrame f = rx.front(); rx.pop_front();
     id = f.id; len = f.len; memcpy(buf, f.buf, 8);     // all 8 bytes are written: bytes beyond len are driver garbage chosen by the case
     return true;
@@ -215,7 +217,13 @@ static void run_case(const std::string &line) {
       }
       else if (t[0] == "F") n->SendFrames();
       else if (t[0] == "C") { int i = atoi(t[1].c_str()); if (i >= 0 && i < ndev) n->StartAddressClaim(i); }
-      else if (t[0] == "P") n->ParseMessages();
+      else if (t[0] == "P") {
+        n->taken = 0;
+        bool wasopen = (n->OpenState == tNMEA2000::os_Open);      // while the node waits for the open delay, Open() empties the driver queue on purpose
+        n->ParseMessages();
+        // the property's bound: one ParseMessages call of an open node consumes at most 20 frames (the model never emits this note)
+        if (wasopen && n->taken > 20 && g_log && g_out) { char b[40]; snprintf(b, 40, "note:rxover:%d ", n->taken); *g_out += b; }
+      }
       else if (t[0] == "Z" && t.size() >= 3) {          // a sizing call after initialisation: documented to have no effect
         int which = atoi(t[1].c_str()); unsigned v = (unsigned)tounum(t[2]);
         if (which == 0) n->SetN2kCANSendFrameBufSize((uint16_t)v);
